@@ -17,6 +17,7 @@ package h2
 
 import (
 	"bytes"
+	"context"
 	"crypto/tls"
 	"crypto/x509"
 	"encoding/hex"
@@ -58,17 +59,38 @@ func (c *Config) Proxy(closing chan bool, cc io.ReadWriter, url *url.URL) error 
 	if c.EnableDebugLogs {
 		log.Infof("\u001b[1;35mProxying %v with HTTP/2\u001b[0m", url)
 	}
-	sc, err := tls.Dial("tcp", url.Host, &tls.Config{
+	// The relays watch `closing` themselves once they run. Until then a proxy shutdown ends
+	// the setup: it cancels the dial and closes the client connection, on which the preface
+	// is being awaited.
+	ctx, cancel := context.WithCancel(context.Background())
+	defer cancel()
+	setupDone := make(chan struct{})
+	go func() {
+		select {
+		case <-closing:
+			cancel()
+			if c, ok := cc.(io.Closer); ok {
+				c.Close()
+			}
+		case <-setupDone:
+		}
+	}()
+	dialer := tls.Dialer{Config: &tls.Config{
 		RootCAs:    c.RootCAs,
 		NextProtos: []string{"h2"},
-	})
+	}}
+	conn, err := dialer.DialContext(ctx, "tcp", url.Host)
 	if err != nil {
+		close(setupDone)
 		return fmt.Errorf("connecting h2 to %v: %w", url, err)
 	}
+	sc := conn.(*tls.Conn)
 	defer sc.Close()
 	if err := forwardPreface(sc, cc); err != nil {
+		close(setupDone)
 		return fmt.Errorf("initializing h2 with %v: %w", url, err)
 	}
+	close(setupDone)
 
 	cf, sf := http2.NewFramer(cc, cc), http2.NewFramer(sc, sc)
 	cToS := newRelay(ClientToServer, "client", url.String(), cf, sf, &c.EnableDebugLogs)
